@@ -149,9 +149,10 @@ def derive_seed(seed, job_index, shard):
 # total, shards (quick, thorough), race, timeout (quick, thorough) seconds, prepare (callable name) optional.
 
 def J(name, gen, pkg, run, checks=(2000, 50000), shards=(1, 16), race=False, timeout=(600, 3000), prepare=None,
-      crash_is_violation=False, env=None, tiers=("quick", "thorough"), steps=None):
+      crash_is_violation=False, env=None, tiers=("quick", "thorough"), steps=None, extra_pkgs=(), opts=None):
     return dict(name=name, gen=gen, pkg=pkg, run=run, checks=checks, shards=shards, race=race, timeout=timeout,
-                prepare=prepare, crash_is_violation=crash_is_violation, env=env or {}, tiers=tiers, steps=steps)
+                prepare=prepare, crash_is_violation=crash_is_violation, env=env or {}, tiers=tiers, steps=steps,
+                extra_pkgs=list(extra_pkgs), opts=opts or {})
 
 
 LEVEL = "exploration"
